@@ -107,6 +107,8 @@ class CBase58BitcoinAddress(bitcoin.base58.CBase58Data, CBitcoinAddress):
 
     @classmethod
     def from_bytes(cls, data, nVersion):
+        if len(data) != 20:
+            raise CBitcoinAddressError('Base58 address payload must be 20 bytes; got %d' % len(data))
         self = super(CBase58BitcoinAddress, cls).from_bytes(data, nVersion)
 
         if nVersion == bitcoin.params.BASE58_PREFIXES['SCRIPT_ADDR']:
